@@ -18,13 +18,17 @@ QUERIES = ['T.sql', 'a.sql', 'E.sql', 'i.sql', 'I.sql', 'R.sql', 'R.dbml', 'R.ta
            'db.sql', 'db.dbml']
 
 
+PLAIN = {'ipk': False, 'iunique': False, 'apk': False, 'rtype': '>'}
+
+
 class World:
-    def __init__(self):
+    def __init__(self, fl=None):
+        fl = fl or PLAIN
         from pydbml.database import Database
         from pydbml.classes import Table, Column, Index, Reference, Enum, EnumItem
         self.D = Database()
         self.T = Table('t')
-        self.a, self.b = Column('a', 'int'), Column('b', 'int')
+        self.a, self.b = Column('a', 'int', pk=fl['apk']), Column('b', 'int')
         self.T.add_column(self.a)
         self.T.add_column(self.b)
         self.U = Table('u')
@@ -34,11 +38,11 @@ class World:
         self.V = Table('t', schema='s2')
         self.V.add_column(Column('z', 'int'))
         self.E = Enum('e', [EnumItem('i')])
-        self.I = Index(subjects=[self.a])
+        self.I = Index(subjects=[self.a], pk=fl['ipk'], unique=fl['iunique'])
         self.T.add_index(self.I)
         for o in (self.T, self.U, self.V, self.E):
             self.D.add(o)
-        self.R = Reference('>', [self.a, self.b], [self.x, self.y])
+        self.R = Reference(fl['rtype'], [self.a, self.b], [self.x, self.y])
         self.D.add(self.R)
         self.saved = {'tname': 't', 'tschema': 'public', 'aname': 'a', 'atype': 'int', 'ename': 'e', 'eschema': 'public', 'iname': 'i'}
 
@@ -97,7 +101,7 @@ class World:
 def _exec_chunk(items):
     out = []
     for it in items:
-        w = World()
+        w = World(it.get('fl'))
         steps = [{q: w.query(q) for q in QUERIES}]
         hist = []
         for e in it['hist']:
@@ -109,7 +113,7 @@ def _exec_chunk(items):
                 break               # an edit refused in a multiply inconsistent state: nothing the property speaks about
             hist.append(e)
             steps.append({q: w.query(q) for q in QUERIES})
-        out.append({'tid': it['tid'], 'hist': hist, 'steps': steps})
+        out.append({'tid': it['tid'], 'hist': hist, 'steps': steps, 'fl': it.get('fl') or PLAIN})
     return out
 
 
@@ -127,7 +131,18 @@ def main(argv: List[str]) -> int:
     if len(hists) != res.distinct:
         raise core.Machinery('MC_Invalid: %d histories for %d states' % (len(hists), res.distinct))
     rep.exhaustive = True
-    items = [{'tid': i + 1, 'hist': h} for i, h in enumerate(hists)]
+    flavours = [p[1] for p in res.prints if p and p[0] == 'F'][0]
+    if len(flavours) != 24 or PLAIN not in flavours:
+        raise core.Machinery('MC_Invalid: flavours %r' % (flavours,))
+    others = [f for f in flavours if f != PLAIN]
+    items = [{'tid': i + 1, 'hist': h, 'fl': PLAIN} for i, h in enumerate(hists)]
+    # every history in the plain universe; in the other flavours every history up to depth 2 (quick: plus each longer one in
+    # one flavour, by rotation; thorough: every history up to depth 3 in every flavour)
+    full = 2 if core.tier() == 'quick' else 3
+    for i, h in enumerate(hists):
+        for f in (others if len(h) <= full else [others[i % len(others)]]):
+            items.append({'tid': len(items) + 1, 'hist': h, 'fl': f})
+    rep.notes['flavours'] = len(flavours)
     recs: List[Dict[str, Any]] = []
     for part in core.pmap(_exec_chunk, core.chunked(items, core.NCPU * 2)):
         recs += part
@@ -142,7 +157,7 @@ def main(argv: List[str]) -> int:
             if r['hist']:
                 rep.mark_nontrivial(r['hist'])
         else:
-            rep.violation({'hist': items[r['tid'] - 1]['hist']}, {'failing_clause': v, 'outcomes': r['steps']})
+            rep.violation({'hist': items[r['tid'] - 1]['hist'], 'fl': items[r['tid'] - 1]['fl']}, {'failing_clause': v, 'outcomes': r['steps']})
     rep.samples.append({'history': hists[len(hists) // 2], 'outcomes_after': recs[len(recs) // 2]['steps'][-1]})
     return rep.finish()
 
@@ -150,7 +165,7 @@ def main(argv: List[str]) -> int:
 def replay(path: str) -> int:
     core.setup_env()
     v = json.load(open(path))
-    recs = _exec_chunk([{'tid': 1, 'hist': v['stimulus']['hist']}])
+    recs = _exec_chunk([{'tid': 1, 'hist': v['stimulus']['hist'], 'fl': v['stimulus'].get('fl')}])
     cfgt = open(tlc.SPEC_DIR + '/TraceInvalid.cfg').read().replace('MaxSteps = 3', 'MaxSteps = 6')
     verdicts, _ = core.validate('TraceInvalid', 'TraceInvalid.cfg', recs, cfg_text=cfgt)
     print('verdict: %r' % verdicts[1])
